@@ -188,12 +188,16 @@ struct Job {
     query_shape: Vec<usize>,
     /// static dimension types to instantiate: (data, query); "dyn" = IxDyn
     inst: (&'static str, &'static str),
+    /// the query holds two different out-of-range values (first and last element): the calls
+    /// fail, and must fail identically (same message, same partial fill) for every layout
+    failing: bool,
 }
 impl Job {
     fn key(&self) -> String {
         format!(
-            "{}:{}:data{:?}:query{:?}:{}x{}",
+            "{}{}:{}:data{:?}:query{:?}:{}x{}",
             if self.two_d { "Interp2D" } else { "Interp1D" },
+            if self.failing { "(failing-batch)" } else { "" },
             self.strat,
             self.data_shape,
             self.query_shape,
@@ -207,7 +211,8 @@ impl Job {
 #[derive(Clone, Debug, PartialEq)]
 enum Obs {
     Ok(Vec<usize>, Vec<u64>),
-    Err,
+    /// the error message (it names the offending query value)
+    Err(String),
     Panic(String),
 }
 
@@ -264,14 +269,14 @@ macro_rules! inst_1d {
                     let ip = $ip;
                     let mut out = vec![];
                     let r = catch(|| ip.interp(q0));
-                    out.push(("interp".to_string(), match r { Ok(Ok(v)) => obs_arr(&v.into_dyn()), Ok(Err(_)) => Obs::Err, Err(p) => Obs::Panic(p) }, true));
+                    out.push(("interp".to_string(), match r { Ok(Ok(v)) => obs_arr(&v.into_dyn()), Ok(Err(e)) => Obs::Err(e.to_string()), Err(p) => Obs::Panic(p) }, true));
                     let r = catch(|| ip.interp_array(&q));
-                    out.push(("interp_array".to_string(), match r { Ok(Ok(v)) => obs_arr(&v.into_dyn()), Ok(Err(_)) => Obs::Err, Err(p) => Obs::Panic(p) }, true));
+                    out.push(("interp_array".to_string(), match r { Ok(Ok(v)) => obs_arr(&v.into_dyn()), Ok(Err(e)) => Obs::Err(e.to_string()), Err(p) => Obs::Panic(p) }, true));
                     if let Some((r, logical, intact)) = with_buffer(a.buf, &single_shape, &|w| { let w2 = w.into_dimensionality().ok()?; Some(catch(|| ip.interp_into(q0, w2))) }) {
-                        out.push(("interp_into".to_string(), match r { Ok(Ok(())) => obs_arr(&logical), Ok(Err(_)) => Obs::Err, Err(p) => Obs::Panic(p) }, intact));
+                        out.push(("interp_into".to_string(), match r { Ok(Ok(())) => obs_arr(&logical), Ok(Err(e)) => Obs::Err(e.to_string()), Err(p) => Obs::Panic(p) }, intact));
                     }
                     if let Some((r, logical, intact)) = with_buffer(a.buf, &expected, &|w| { let w2 = w.into_dimensionality().ok()?; Some(catch(|| ip.interp_array_into(&q, w2))) }) {
-                        out.push(("interp_array_into".to_string(), match r { Ok(Ok(())) => obs_arr(&logical), Ok(Err(_)) => Obs::Err, Err(p) => Obs::Panic(p) }, intact));
+                        out.push(("interp_array_into".to_string(), match r { Ok(Ok(())) => obs_arr(&logical), Ok(Err(e)) => Obs::Err(e.to_string()), Err(p) => Obs::Panic(p) }, intact));
                     }
                     out
                 }};
@@ -304,14 +309,14 @@ macro_rules! inst_2d {
             let ip = Interp2DBuilder::new(data).x(x).y(y).strategy(Bilinear::new().extrapolate(true)).build().ok()?;
             let mut out = vec![];
             let r = catch(|| ip.interp(q0, q1));
-            out.push(("interp".to_string(), match r { Ok(Ok(v)) => obs_arr(&v.into_dyn()), Ok(Err(_)) => Obs::Err, Err(p) => Obs::Panic(p) }, true));
+            out.push(("interp".to_string(), match r { Ok(Ok(v)) => obs_arr(&v.into_dyn()), Ok(Err(e)) => Obs::Err(e.to_string()), Err(p) => Obs::Panic(p) }, true));
             let r = catch(|| ip.interp_array(&qx, &qy));
-            out.push(("interp_array".to_string(), match r { Ok(Ok(v)) => obs_arr(&v.into_dyn()), Ok(Err(_)) => Obs::Err, Err(p) => Obs::Panic(p) }, true));
+            out.push(("interp_array".to_string(), match r { Ok(Ok(v)) => obs_arr(&v.into_dyn()), Ok(Err(e)) => Obs::Err(e.to_string()), Err(p) => Obs::Panic(p) }, true));
             if let Some((r, logical, intact)) = with_buffer(a.buf, &single_shape, &|w| { let w2 = w.into_dimensionality().ok()?; Some(catch(|| ip.interp_into(q0, q1, w2))) }) {
-                out.push(("interp_into".to_string(), match r { Ok(Ok(())) => obs_arr(&logical), Ok(Err(_)) => Obs::Err, Err(p) => Obs::Panic(p) }, intact));
+                out.push(("interp_into".to_string(), match r { Ok(Ok(())) => obs_arr(&logical), Ok(Err(e)) => Obs::Err(e.to_string()), Err(p) => Obs::Panic(p) }, intact));
             }
             if let Some((r, logical, intact)) = with_buffer(a.buf, &expected, &|w| { let w2 = w.into_dimensionality().ok()?; Some(catch(|| ip.interp_array_into(&qx, &qy, w2))) }) {
-                out.push(("interp_array_into".to_string(), match r { Ok(Ok(())) => obs_arr(&logical), Ok(Err(_)) => Obs::Err, Err(p) => Obs::Panic(p) }, intact));
+                out.push(("interp_array_into".to_string(), match r { Ok(Ok(())) => obs_arr(&logical), Ok(Err(e)) => Obs::Err(e.to_string()), Err(p) => Obs::Panic(p) }, intact));
             }
             Some(out)
         }
@@ -395,7 +400,16 @@ fn run(job: &Job, full: bool, out: &mut JobOut) {
     let x0: Array1<f64> = Array1::from((0..n).map(|i| [0.0, 0.1, 0.5, 1.7, 2.0, 3.3, 4.1][i]).collect::<Vec<_>>());
     let y0: Option<Array1<f64>> = if job.two_d { Some(Array1::from((0..job.data_shape[1]).map(|i| [-1.0, 0.3, 0.9, 2.5, 3.0][i]).collect::<Vec<_>>())) } else { None };
     let data0 = data_nd(&job.data_shape, job.strat == "Cubic/Periodic");
-    let xs0 = query_nd(&job.query_shape, x0[0], x0[n - 1], 0.0);
+    let mut xs0 = query_nd(&job.query_shape, x0[0], x0[n - 1], 0.0);
+    if job.failing {
+        let m = xs0.len();
+        if m < 2 {
+            return;
+        }
+        let mut it = xs0.iter_mut();
+        *it.next().unwrap() = 9.0;
+        *it.last().unwrap() = -7.0;
+    }
     let ys0 = y0.as_ref().map(|y| query_nd(&job.query_shape, y[0], y[y.len() - 1], 3.0));
     let bounds0 = if job.strat == "Cubic/Individual" { Some(boundary_rows(&job.data_shape, false)) } else { None };
     let key = job.key();
@@ -408,8 +422,8 @@ fn run(job: &Job, full: bool, out: &mut JobOut) {
     };
     out.states += 1;
     for (name, o, _) in &reference {
-        out.outcome(format!("reference:{name}:{}", match o { Obs::Ok(..) => "Ok", Obs::Err => "Err", Obs::Panic(_) => "panic" }));
-        if !matches!(o, Obs::Ok(..)) {
+        out.outcome(format!("reference:{name}:{}", match o { Obs::Ok(..) => "Ok", Obs::Err(_) => "Err", Obs::Panic(_) => "panic" }));
+        if !matches!(o, Obs::Ok(..)) && !(job.failing && matches!(o, Obs::Err(_))) {
             out.violate(format!("{key}:reference:{name}"), format!("the all-C-order reference call {name} did not succeed: {o:?}"), Json::str(&key));
         }
     }
@@ -531,13 +545,16 @@ fn body(ctx: &Ctx) -> (Summary, Meta) {
                 continue;
             }
             for qs in qshape(dq, 0) {
-                jobs.push(Job { two_d: false, strat, data_shape: shapes_for(rank), query_shape: qs, inst: (d, dq) });
+                if strat == "Linear" && qs.iter().product::<usize>() >= 2 {
+                    jobs.push(Job { two_d: false, strat, data_shape: shapes_for(rank), query_shape: qs.clone(), inst: (d, dq), failing: true });
+                }
+                jobs.push(Job { two_d: false, strat, data_shape: shapes_for(rank), query_shape: qs, inst: (d, dq), failing: false });
             }
         }
     }
     for (d, dq, rank) in [("Ix2", "Ix1", 2), ("Ix3", "Ix1", 3), ("Ix4", "Ix1", 4), ("Ix3", "Ix2", 3), ("Ix3", "Ix3", 3), ("dyn", "dyn", 2), ("dyn", "dyn", 3), ("dyn", "dyn", 4), ("dyn", "Ix1", 3), ("Ix3", "dyn", 3)] {
         for qs in qshape(dq, 1) {
-            jobs.push(Job { two_d: true, strat: "Bilinear", data_shape: shapes_for(rank), query_shape: qs, inst: (d, dq) });
+            jobs.push(Job { two_d: true, strat: "Bilinear", data_shape: shapes_for(rank), query_shape: qs, inst: (d, dq), failing: false });
         }
     }
     let njobs = jobs.len();
@@ -547,7 +564,7 @@ fn body(ctx: &Ctx) -> (Summary, Meta) {
         out
     });
     let meta = Meta {
-        rule: "for every (strategy, data rank 1..4, query rank 0..3 / dynamic, static-or-dynamic instantiation) the four call forms {interp, interp_into, interp_array, interp_array_into} are run once with all arguments as owned C-order arrays (reference) and then with each argument (data, x, y, query xs, query ys, output buffer, boundary array) independently in every layout of the alphabet {F order, every 2nd (3rd) element of a larger poisoned array, reversed along an axis (negative stride), permuted axes storage; buffers also as reversed windows}, and with the full product over a 3-layout core {C, F, reversed+strided} of (data, x, query, buffer). Oracle: bit-identical to the reference; correctly shaped buffers accepted; memory outside strided buffers untouched. Non-trivial = at least one argument not in C order.".into(),
+        rule: "for every (strategy, data rank 1..4, query rank 0..3 / dynamic, static-or-dynamic instantiation) the four call forms {interp, interp_into, interp_array, interp_array_into} are run once with all arguments as owned C-order arrays (reference) and then with each argument (data, x, y, query xs, query ys, output buffer, boundary array) independently in every layout of the alphabet {F order, every 2nd (3rd) element of a larger poisoned array, reversed along an axis (negative stride), permuted axes storage; buffers also as reversed windows}, and with the full product over a 3-layout core {C, F, reversed+strided} of (data, x, query, buffer). For Linear every job is repeated with a query holding two different out-of-range values: the error (which names the first offending value in logical order) and the partially filled buffer must not depend on the layouts either. Oracle: bit-identical to the reference; correctly shaped buffers accepted; memory outside strided buffers untouched. Non-trivial = at least one argument not in C order.".into(),
         bounds: format!("{njobs} instantiation jobs; tier {}", ctx.tier.name()),
         assumptions: vec!["all layouts are realised as owned arrays / mutable views with unusual strides; ownership kinds (view, shared) are covered by C19".into()],
         extra: vec![],
